@@ -32,7 +32,55 @@ let next_z st = z_of_int (next_int st)
 let next_opt_z st = let n = next_int st in if n < 0 then None else Some (z_of_int n)
 let rec repeat n f = if n <= 0 then [] else let x = f () in x :: repeat (n - 1) f
 
-let read_instance (st : stream) : instance * z list =
+exception Resolve_failed
+
+(* the raw format: references are identifiers; resolved by the extracted RawLoad.resolve *)
+let read_raw_instance (st : stream) : instance * z list =
+  let nlist f = let n = next_int st in repeat n f in
+  let types = nlist (fun () ->
+    let i = next_z st in let c = next_z st in let s = next_z st in let l = next_opt_z st in
+    { rv_id = i; rv_cap = c; rv_seats = s; rv_limit = l }) in
+  let locs = nlist (fun () -> next_z st) in
+  let nd = next_int st in
+  let depots = if nd < 0 then None else Some (repeat nd (fun () ->
+    let l = next_z st in let c = next_z st in
+    let al = nlist (fun () -> let t = next_z st in let c = next_opt_z st in (t, c)) in
+    { rd_loc = l; rd_cap = c; rd_allowed = al })) in
+  let routes = nlist (fun () ->
+    let i = next_z st in let t = next_z st in
+    let segs = nlist (fun () ->
+      let gi = next_z st in let o = next_z st in let d = next_z st in let di = next_z st in let du = next_z st in
+      let l = next_opt_z st in
+      { rg_id = gi; rg_origin = o; rg_dest = d; rg_dist = di; rg_dur = du; rg_limit = l }) in
+    { rr_id = i; rr_type = t; rr_segs = segs }) in
+  let deps = nlist (fun () ->
+    let r = next_z st in
+    let segs = nlist (fun () ->
+      let g = next_z st in let dp = next_z st in let p = next_z st in let s = next_z st in
+      { rds_rseg = g; rds_dep = dp; rds_pass = p; rds_seated = s }) in
+    { rdp_route = r; rdp_segs = segs }) in
+  let nsl = next_int st in
+  let slots = if nsl < 0 then None else Some (repeat nsl (fun () ->
+    let l = next_z st in let s = next_z st in let e = next_z st in let t = next_z st in
+    { rsl_loc = l; rsl_start = s; rsl_end = e; rsl_tracks = t })) in
+  let idx = nlist (fun () -> next_z st) in
+  let dur = nlist (fun () -> nlist (fun () -> next_z st)) in
+  let dst = nlist (fun () -> nlist (fun () -> next_z st)) in
+  let forbid = next_int st <> 0 in
+  let pmin = next_z st in let pdht = next_z st in let pmax = next_z st in
+  let cst = next_z st in let csv = next_z st in let cmt = next_z st in let cdh = next_z st in
+  let cid = next_z st in
+  let params = { p_forbid = forbid; p_min = pmin; p_dht = pdht; p_maxdist = pmax; c_staff = cst;
+                 c_service = csv; c_maint = cmt; c_dh = cdh; c_idle = cid } in
+  let perm = nlist (fun () -> next_z st) in
+  let raw = { ri_types = types; ri_locs = locs; ri_depots = depots; ri_routes = routes; ri_departures = deps;
+              ri_slots = slots; ri_dh_indices = idx; ri_dh_dur = dur; ri_dh_dist = dst; ri_params = params } in
+  match resolve raw with
+  | Ok i -> (i, perm)
+  | _ -> raise Resolve_failed
+
+let rec read_instance (st : stream) : instance * z list =
+  if peek st = "RAW" then (ignore (next st); read_raw_instance st) else
   let ntypes = next_int st in
   let types = repeat ntypes (fun () ->
     let c = next_z st in let s = next_z st in let l = next_opt_z st in
